@@ -642,4 +642,46 @@ def afterRounds (cfg : Cfg) : FS → List Round → FS
   | fs, [] => fs
   | fs, r :: rest => afterRounds cfg (r.after cfg fs) rest
 
+/-! ## single operations on a world (files + optional handle), as the streams execute them -/
+
+inductive Op where
+  | openOp
+  | commit (tx : Tx)
+  | compact
+  | close
+  | drop
+deriving Repr, Inhabited
+
+structure World where
+  fs : FS := {}
+  mem : Option Mem := none
+deriving Inhabited
+
+/-- the program of an operation and the memory it starts from (`none`: needs a handle, has none) -/
+def World.acts (cfg : Cfg) (w : World) : Op → Option (List Action × Mem)
+  | .openOp => some (openA cfg w.fs.pv w.fs.wf, {})
+  | .commit tx => w.mem.map (fun m => (commitA cfg m w.fs.pv w.fs.wf tx, m))
+  | .compact => w.mem.map (fun m => (compactA cfg m w.fs.pv w.fs.wf, m))
+  | .close => w.mem.map (fun m => (closeA cfg m w.fs.pv w.fs.wf, m))
+  | .drop => none
+
+/-- run one operation; `st` = where it is cut short, `mode` = what the crash leaves (if it dies).
+    Returns the new world and the error the caller sees, if any. -/
+def World.step (cfg : Cfg) (w : World) (op : Op) (st : Stop := .none) (mode : CrashMode := .proc) : World × Option Err :=
+  match op, w.acts cfg op with
+  | .drop, _ => ({ w with mem := none }, none)
+  | _, none => (w, some .walClosed)
+  | op, some (acts, m0) =>
+    let out := run acts st w.fs m0
+    if out.dead then ({ fs := out.fs.crash mode, mem := none }, none)
+    else
+      let keep := match op, out.err with
+        | .openOp, some _ => false      -- open returned Err: no handle
+        | .close, _ => false            -- the handle is dropped after checkpoint_on_close
+        | _, _ => true
+      ({ fs := out.fs, mem := if keep then some out.mem else none }, out.err)
+
+/-- a freshly created database: `open` on no files, handle dropped -/
+def created (cfg : Cfg) : FS := (run (openA cfg ({} : FS).pv ({} : FS).wf) .none {} {}).fs
+
 end Nervus.Crash
